@@ -78,15 +78,17 @@ pub fn shape_text(shape: &str, n: usize) -> String {
     }
 }
 
-fn scratch_dir() -> PathBuf {
-    let d = PathBuf::from(verif_dir()).join("scratch").join(format!("c34-{}", std::process::id()));
-    std::fs::create_dir_all(&d).ok();
-    d
+static DIR_SEQ: std::sync::atomic::AtomicU64 = std::sync::atomic::AtomicU64::new(0);
+
+/// a directory for the child's files, named and removed by the parent (a crashed child cannot tidy up)
+fn scratch_dir_name() -> PathBuf {
+    let n = DIR_SEQ.fetch_add(1, std::sync::atomic::Ordering::SeqCst);
+    PathBuf::from(verif_dir()).join("scratch").join(format!("c34-{}-{n}", std::process::id()))
 }
 
 /// in the child: run the operations of one case on one machine, print one RESULT line per op
-fn child_run(shape: &str, size: u32, ops: &[String]) -> i32 {
-    let dir = scratch_dir();
+fn child_run(shape: &str, size: u32, ops: &[String], dir: PathBuf) -> i32 {
+    std::fs::create_dir_all(&dir).ok();
     let mut s = Session::new(&[]);
     if !s.consult(C34_PL, "c34") {
         println!("RESULT harness:c34.pl-did-not-load");
@@ -119,7 +121,6 @@ fn child_run(shape: &str, size: u32, ops: &[String]) -> i32 {
             break;
         }
     }
-    let _ = std::fs::remove_dir_all(&dir);
     0
 }
 
@@ -131,17 +132,22 @@ enum Res {
     Timeout,
 }
 
+/// time budget of a child at the large sizes (set per tier by run_shard)
+static BIG_TIMEOUT_S: std::sync::atomic::AtomicU64 = std::sync::atomic::AtomicU64::new(900);
+
 fn timeout_for(size: u32) -> u64 {
     if size >= 300_000 {
-        900
+        BIG_TIMEOUT_S.load(std::sync::atomic::Ordering::SeqCst)
     } else {
         300
     }
 }
 
 fn run_case(shape: &str, size: u32, ops: &[String]) -> Res {
-    let input = json!({"shape": shape, "size": size, "ops": ops});
+    let dir = scratch_dir_name();
+    let input = json!({"shape": shape, "size": size, "ops": ops, "dir": dir.to_string_lossy()});
     let o = run_child("C34", "ops", &input, timeout_for(size), &[]);
+    let _ = std::fs::remove_dir_all(&dir);
     if o.timed_out {
         return Res::Timeout;
     }
@@ -289,15 +295,16 @@ impl Prop for C34 {
     fn assumptions(&self) -> Vec<String> {
         vec![
             "the child inherits the default 8 MiB main-thread stack (ulimit -s 8192)".into(),
-            "a child that exceeds its time budget (300 s, 900 s from 3*10^5 nodes) is counted as a discard, never as a violation".into(),
+            "a child that exceeds its time budget (300 s; 900 s from 3*10^5 nodes in the thorough tier) is counted as a discard, never as a violation".into(),
             "an overflow that needs a shape or operation outside the catalogue is not found".into(),
         ]
     }
     fn watchdog_s(&self, tier: Tier) -> u64 {
-        tier.pick(3000, 28800)
+        tier.pick(7200, 28800)
     }
     fn run_shard(&self, cfg: &ShardCfg) -> ShardResult {
         let mut total = ShardResult::default();
+        BIG_TIMEOUT_S.store(cfg.tier.pick(300, 900), std::sync::atomic::Ordering::SeqCst);
         let sizes: Vec<u32> = cfg.tier.pick(vec![10_000, 1_000_000], LADDER.to_vec());
         let cases: Vec<Case> = all_pairs(&sizes).into_iter().enumerate().filter(|(i, _)| (*i as u32) % cfg.nshards == cfg.shard).map(|(_, c)| c).collect();
         // run_list stops at the first unknown failure; the pairs are independent, so each gets
@@ -330,6 +337,7 @@ impl Prop for C34 {
         let shape = input["shape"].as_str().unwrap_or("list").to_string();
         let size = input["size"].as_u64().unwrap_or(1000) as u32;
         let ops: Vec<String> = input["ops"].as_array().map(|a| a.iter().filter_map(|x| x.as_str().map(|s| s.to_string())).collect()).unwrap_or_default();
-        child_run(&shape, size, &ops)
+        let dir = PathBuf::from(input["dir"].as_str().unwrap_or("/tmp/c34-child"));
+        child_run(&shape, size, &ops, dir)
     }
 }
